@@ -1,7 +1,8 @@
 (* codecs/h265_packet.go: H265Payloader.Payload, H265Packet.Unmarshal with its four payload
    structures, header accessors, IsPartitionHead.  Fixed tree: single-NALU fragments are copies,
-   TSCI is built from phes[0..2] in the 32-bit layout its accessors read.  A unit whose payload would fill
-   exactly one fragment is sent as a single NAL unit packet (repair of the former KF-C14-lone-fu);
+   TSCI is built from phes[0..2] in the 32-bit layout its accessors read.  A unit that fails the
+   conservative fits test but fits a single NAL unit packet is sent as one (repairs D12, the former
+   KF-C14-lone-fu, and D28);
    the pinned behaviour KF-C14-donl-every-fu is modelled as it is. *)
 From Coq Require Import ZArith List Lia Bool.
 From RTP Require Import Base.Bits Base.Res Base.ListX Base.Bytes Base.Own Model.AnnexB.
@@ -122,19 +123,24 @@ Definition h5_nalu (mtu : Z) (st : h265pay) (b : h5buf) (nalu : list Z) : res (h
     let maxf := mtu - fu_hdr in
     match nalu with
     | h0 :: h1 :: body =>
-      if (maxf <=? 0) || (zlen body =? 0) then Ok (st, b, [])
+      if zlen body =? 0 then Ok (st, b, [])
+      else if zlen body <=? maxf + 1 then
+        (* the unit fits a single NAL unit packet, which has no FU header byte: it goes out as one
+           (flushBufferedNals(); bufferedNALUs = [nalu]; flushBufferedNals()) *)
+        match h5_flush st b with
+        | Ok (st1, out1) =>
+          match h5_flush st1 (mkH5Buf [nalu] 0) with
+          | Ok (st2, out2) => Ok (st2, mkH5Buf [] 0, out1 ++ out2)
+          | Err e => Err e
+          | Panic => Panic
+          end
+        | Err e => Err e
+        | Panic => Panic
+        end
+      else if maxf <=? 0 then Ok (st, b, [])
       else
         match h5_flush st b with
         | Ok (st1, out1) =>
-          if zlen body <=? maxf then
-            (* the payload would fill a single fragment: the unit goes out as a single NAL unit packet
-               (bufferedNALUs = [nalu]; flushBufferedNals()) *)
-            match h5_flush st1 (mkH5Buf [nalu] 0) with
-            | Ok (st2, out2) => Ok (st2, mkH5Buf [] 0, out1 ++ out2)
-            | Err e => Err e
-            | Panic => Panic
-            end
-          else
           match h5_fus (S (length body)) st1 maxf h0 h1 (nh_type (Z.lor (Z.shiftl h0 8) h1)) (zlen body) body with
           | Ok (st2, out2) => Ok (st2, mkH5Buf [] 0, out1 ++ out2)
           | Err e => Err e
